@@ -315,6 +315,9 @@ class Interp:
                     v = v.ref
                 if isinstance(v, Ref):
                     alloc, path = v.alloc, v.path
+                elif isinstance(v, (Str, Opaque)):
+                    # string slices are represented by value: `*s` is the string itself
+                    pass
                 else:
                     return WILD
             elif isinstance(pe, dict):
@@ -833,7 +836,8 @@ class Interp:
         dfn = callee.get("def")
         if body is not None:
             self.call_edges.add((body.path, res))
-        ov = self.fn_overrides.get(res) or self.fn_overrides.get(dfn)
+        ov = self.fn_overrides.get(res) or self.fn_overrides.get(dfn) or \
+            (self.fn_overrides.get(callee.get("defargs")) if self.fn_overrides else None)
         if ov is not None:
             return ov(self, st, depth, callee, args, body, ln)
         target = self.p.bodies.get(res)
